@@ -96,6 +96,13 @@ func (env *SpecEnv) eval(e Expr) SV {
 			sub.depth++
 			return sub.eval(le)
 		}
+		if strings.HasPrefix(e.Name, "$") {
+			if gt, ok := x.W.Specs.GhostGlobals[strings.TrimPrefix(e.Name, "$")]; ok {
+				T := env.resolveParamType(gt)
+				p := VPtr{Kind: PGlobal, Glob: "ghost." + strings.TrimPrefix(e.Name, "$"), Elem: T}
+				return SV{x.loadGlobalSpec(env.Cur, p), T}
+			}
+		}
 		if sv, ok := env.lookupGlobal(e.Name); ok {
 			return sv
 		}
@@ -819,6 +826,12 @@ func (env *SpecEnv) evalSel(e ESel) SV {
 	if !ok {
 		specFail("type %s has no field %s", T, e.Name)
 	}
+	if structOf(fi.Type) != nil && !isOpaqueInt(fi.Type) {
+		if _, isPtr := typeUnder(fi.Type).(*types.Pointer); !isPtr {
+			// a by-value struct field denotes the nested object (it shares the parent's address)
+			return SV{VInt{a2}, types.NewPointer(fi.Type)}
+		}
+	}
 	return SV{x.loadFieldSpec(env.Cur, T2, fi, a2), fi.Type}
 }
 
@@ -930,14 +943,30 @@ func (env *SpecEnv) objToSV(obj types.Object) (SV, bool) {
 }
 
 func (env *SpecEnv) lookupGlobal(name string) (SV, bool) {
-	if env.Pkg == nil {
-		return SV{}, false
+	if env.Pkg != nil {
+		if obj := env.Pkg.Pkg.Scope().Lookup(name); obj != nil {
+			return env.objToSV(obj)
+		}
 	}
-	obj := env.Pkg.Pkg.Scope().Lookup(name)
-	if obj == nil {
-		return SV{}, false
+	// constants of other repo packages may be used unqualified when unambiguous
+	var found types.Object
+	for _, p := range env.X.W.Prog.AllPackages() {
+		if !env.X.W.IsRepoPkg(p.Pkg) {
+			continue
+		}
+		if obj := p.Pkg.Scope().Lookup(name); obj != nil {
+			if _, isConst := obj.(*types.Const); isConst {
+				if found != nil && found.Pkg() != obj.Pkg() {
+					return SV{}, false
+				}
+				found = obj
+			}
+		}
 	}
-	return env.objToSV(obj)
+	if found != nil {
+		return env.objToSV(found)
+	}
+	return SV{}, false
 }
 
 func (env *SpecEnv) lookupQualified(pkg, name string) (SV, bool) {
